@@ -201,6 +201,7 @@ def run(chk):
 _T = "cnvlib/target.py"
 _A = "cnvlib/antitarget.py"
 MUTANTS = [
+    dict(name="twin: empty baits dropped before the copy", expect="silent", file="cnvlib/target.py", old="    tgt_arr = bait_arr.copy()\n    # Drop zero-width regions\n    tgt_arr = tgt_arr[tgt_arr.start != tgt_arr.end]", new="    tgt_arr = bait_arr[bait_arr.start != bait_arr.end].copy()"),
     dict(name="target: copy dropped", file=_T, old="    tgt_arr = bait_arr.copy()\n    # Drop zero-width regions\n    tgt_arr = tgt_arr[tgt_arr.start != tgt_arr.end]", new="    tgt_arr = bait_arr\n    tgt_arr.data = tgt_arr.data[tgt_arr.start != tgt_arr.end]"),
     dict(name="target: zero-width baits kept", file=_T, old="    tgt_arr = tgt_arr[tgt_arr.start != tgt_arr.end]\n", new=""),
     dict(name="target: split with a minimum size", file=_T, old="        tgt_arr = tgt_arr.subdivide(avg_size, 0)", new="        tgt_arr = tgt_arr.subdivide(avg_size, int(avg_size // 4))"),
